@@ -11,17 +11,20 @@ if [ "$MODE" = "--in-repo" ]; then
   git -C /repo checkout -- .
 else
   WT=/tmp/sr_$ID
+  exec 9>/tmp/seed_run.gitlock
+  flock 9
   git -C /repo worktree remove --force $WT 2>/dev/null
   git -C /repo worktree add -q --detach $WT HEAD || exit 2
+  flock -u 9
   git -C $WT apply /verif/seeded/$ID/patch.diff || { git -C /repo worktree remove --force $WT; exit 2; }
   OUT=$(VERIF_REPO=$WT timeout 3600 ./check $PROP --tier $TIER 2>&1); RC=$?
-  git -C /repo worktree remove --force $WT
+  flock 9; git -C /repo worktree remove --force $WT; flock -u 9
 fi
 echo "$OUT" | cut -c1-220 | tail -4
 KIND=""
 if [ $RC = 1 ]; then
   if echo "$OUT" | grep "^VIOLATION" | grep -qv "no-failing-input-found"; then KIND="CAUGHT(failing-input)"; else KIND="CAUGHT(no-failing-input-found)"; fi
   RP=$(echo "$OUT" | grep -m1 "^VIOLATION" | sed 's/.*replay=\([^ ]*\).*/\1/')
-  if [ -f "/verif/$RP" ] && grep -q "lake build" "/verif/$RP" 2>/dev/null; then KIND="BROKEN-BUILD(rerun)"; fi
+  if [ -f "/verif/$RP" ] && grep -q "lake build" "/verif/$RP" 2>/dev/null; then KIND="CAUGHT(broken-obligation:see-replay)"; fi
 else KIND="MISSED"; fi
 echo "seed=$ID check=$PROP tier=$TIER rc=$RC $KIND"
